@@ -13,8 +13,8 @@ RULE = (
     "values of their nodes, every output must equal its stable value. non-trivial = cyclic with >=1 stable state; distinct = canonical circuit"
 )
 BUDGET = {
-    "quick": {"workers": 16, "cases": 110, "secs": 45, "min_cases": 900},
-    "thorough": {"workers": 16, "rounds": 4, "cases": 450, "secs": 240, "min_cases": 8000},
+    "quick": {"workers": 16, "cases": 1200, "secs": 60, "min_cases": 9600},
+    "thorough": {"workers": 16, "rounds": 4, "cases": 3200, "secs": 420, "min_cases": 102400},
 }
 ANCHORS = ["tx:acyclic_unroll"]
 
@@ -23,8 +23,11 @@ def gen(rng, ctx):
     big = ctx.tier == "thorough"
     maxn = 15 if big else 13
     ni = rng.randint(1, 4)
-    tmpl = rng.choice(["back", "back", "back", "latch", "ring", "two_scc"])
-    ng = rng.randint(2, maxn - ni - (4 if tmpl != "back" else 1))
+    tmpl = rng.choice(["back", "back", "back", "latch", "ring", "two_scc", "dense", "dense"])
+    ng = rng.randint(2, maxn - ni - (4 if tmpl not in ("back", "dense") else 1))
+    if tmpl == "dense":
+        ni = rng.randint(1, 2)
+        ng = rng.randint(4, 9)
     cd = G.rand_circuit(rng, ni, ng, max_fanin=3, p_const=0.15, p_input_output=0.15, p_const_output=0.1, n_outputs=rng.randint(1, 3))
     nodes = [n for n, _, _ in cd["nodes"]]
     tps = G.cd_types(cd)
@@ -51,6 +54,9 @@ def gen(rng, ctx):
         a = rng.choice(src)
         cd["nodes"] += [["s2a", rng.choice(G.GATESN), False], ["s2b", rng.choice(G.GATESN), True]]
         cd["edges"] += [[a, "s2a"], ["s2b", "s2a"], ["s2a", "s2b"], [rng.choice(src), "s2b"]]
+    if tmpl == "dense":
+        # many overlapping loops through few gates
+        cd = G.add_cycles(rng, cd, rng.randint(3, 7))
     if tmpl in ("back", "latch", "ring") and (tmpl == "back" or rng.random() < 0.4):
         cd = G.add_cycles(rng, cd, rng.randint(1, 4 if big else 3))
     return {"c": cd, "tmpl": tmpl}
@@ -130,5 +136,5 @@ def check(case, ctx):
 
 
 def gates(counters, table, tier):
-    need = ["tmpl:back", "tmpl:latch", "tmpl:ring", "tmpl:two_scc", "cyclic", "has_stable_state", "no_stable_state", "multiple_stable_states_per_input", "cut_nodes:1", "cut_nodes:2", "output_is_input"]
+    need = ["tmpl:dense", "tmpl:back", "tmpl:latch", "tmpl:ring", "tmpl:two_scc", "cyclic", "has_stable_state", "no_stable_state", "multiple_stable_states_per_input", "cut_nodes:1", "cut_nodes:2", "output_is_input"]
     return [f"{k} seen {counters.get(k, 0)} times" for k in need if counters.get(k, 0) < 5]
